@@ -23,9 +23,10 @@ RULES = {
     "R3": "successor arithmetic: (i, p) -> (i + 1, 0) if p + 1 >= batch_size else (i, p + 1)",
     "R4": "completion marker: validity predicate and returned metadata use the same reader; incomplete directory raises naming it",
     "R6": "scan order: the enumerated iteration / plate directories are visited in the order of their integer index (sorted with an int-valued key), not in string order",
+    "R7": "the screen read from a completed step's directory is its advanced screen whenever one is published (the training screen only for the initial step)",
     "R5": "inputs: screen = the scan's current screen (predecessor output); thetas/chunks from plate_0 of the same iteration; excludes from the same iteration",
 }
-MIN = {"R1": 2, "R2": 3, "R3": 1, "R4": 2, "R5": 4, "R6": 2}
+MIN = {"R1": 2, "R2": 3, "R3": 1, "R4": 2, "R5": 4, "R6": 2, "R7": 1}
 TRUSTED = ["glob/os.path semantics", "the pipeline publishes screen_metadata.json last (completion marker) - not checked here"]
 TECHNIQUE = "who-may-call scan, co-definition (torn update) analysis on the CFG, integer relational normal forms"
 LEVEL_TEXT = ("Two necessary conditions of crash-safe resumption are shape facts of the scan: it never deletes a completed "
@@ -421,7 +422,108 @@ def r6(ctx):
     ctx.need(n >= 2, f"r6: {f.site()}: only {n} scan loops over enumerated directories found")
 
 
-RULE_FUNCS = [r1, r2, r3, r4, r5, r6]
+def r7(ctx):
+    """iter_0/plate_0 publishes both training.screen.h5 (the input of the simulation) and advanced_screen.h5 (its output).  The step after
+    it must start from the output.  get_screen_from_job_output is evaluated abstractly under the hypothesis that both files are
+    present: whatever the idiom (two globs and an if chain, a preference table walked by a helper), it must return the advanced one."""
+    f = ctx.fn(f"{ORCH_MOD}.get_screen_from_job_output")
+    PRESENT = ("advanced_screen.h5", "training.screen.h5")
+
+    def files_of(e):
+        """NAME if e lists the published files called NAME of the directory (glob of join(dir, '*', NAME)), possibly inside list()"""
+        while isinstance(e, ast.Call) and call_name(e) in ("list", "sorted", "tuple") and len(e.args) == 1:
+            e = e.args[0]
+        if isinstance(e, ast.Call) and (call_name(e) or "").split(".")[-1] in ("glob", "iglob") and e.args:
+            j = e.args[0]
+            if isinstance(j, ast.Call) and (call_name(j) or "").endswith("join") and j.args and isinstance(j.args[-1], ast.Constant) and isinstance(j.args[-1].value, str):
+                return j.args[-1].value
+            if isinstance(j, ast.JoinedStr) or isinstance(j, ast.BinOp):
+                t = U(j)
+                for nm in PRESENT:
+                    if nm in t:
+                        return nm
+        return None
+
+    class Undecided(Exception):
+        pass
+
+    def val(e, env):
+        if isinstance(e, ast.Constant):
+            return ("const", e.value)
+        if isinstance(e, ast.Name):
+            if e.id in env:
+                return env[e.id]
+            raise Undecided(f"`{e.id}`")
+        nm = files_of(e)
+        if nm is not None:
+            if nm not in PRESENT:
+                raise Undecided(f"files `{nm}`")
+            return ("files", nm)
+        if isinstance(e, ast.Subscript) and isinstance(e.slice, ast.Constant) and e.slice.value in (0, -1):
+            v = val(e.value, env)
+            if v[0] == "files":
+                return ("file", v[1])
+        if isinstance(e, ast.Call) and call_name(e) == "len" and len(e.args) == 1:
+            v = val(e.args[0], env)
+            if v[0] == "files":
+                return ("positive",)
+        if isinstance(e, ast.IfExp):
+            return val(e.body if truth(e.test, env) else e.orelse, env)
+        if isinstance(e, ast.Call) and call_name(e) == "next" and e.args:
+            raise Undecided("next(..)")
+        raise Undecided(f"`{U(e)[:50]}`")
+
+    def truth(t, env):
+        if isinstance(t, ast.UnaryOp) and isinstance(t.op, ast.Not):
+            return not truth(t.operand, env)
+        if isinstance(t, ast.BoolOp):
+            vs = [truth(v, env) for v in t.values]
+            return all(vs) if isinstance(t.op, ast.And) else any(vs)
+        if isinstance(t, ast.Compare) and len(t.ops) == 1:
+            l, r, op = val(t.left, env), val(t.comparators[0], env), t.ops[0]
+            if isinstance(op, (ast.Is, ast.IsNot)) and r == ("const", None):
+                return (l == ("const", None)) == isinstance(op, ast.Is)
+            if l == ("positive",) and r[0] == "const" and isinstance(r[1], int):
+                c = r[1]
+                known = {ast.Eq: (c <= 0, False), ast.NotEq: (c <= 0, True), ast.Gt: (c <= 0, True), ast.GtE: (c <= 1, True),
+                         ast.Lt: (c <= 1, False), ast.LtE: (c <= 0, False)}.get(type(op))
+                if known is not None and known[0]:
+                    return known[1]                      # a count of at least one against the constant
+            raise Undecided(f"`{U(t)}`")
+        v = val(t, env)
+        if v[0] in ("files", "file", "positive"):
+            return True
+        if v[0] == "const":
+            return bool(v[1])
+        raise Undecided(f"`{U(t)}`")
+
+    def run(stmts, env):
+        for st in stmts:
+            if isinstance(st, ast.Expr) and isinstance(st.value, ast.Constant):
+                continue
+            if isinstance(st, ast.Assign) and len(st.targets) == 1 and isinstance(st.targets[0], ast.Name):
+                env[st.targets[0].id] = val(st.value, env)
+            elif isinstance(st, ast.If):
+                r_ = run(st.body if truth(st.test, env) else st.orelse, env)
+                if r_ is not None:
+                    return r_
+            elif isinstance(st, ast.Return):
+                return val(st.value, env) if st.value is not None else ("const", None)
+            else:
+                raise Undecided(f"statement `{U(st)[:50]}`")
+        return None
+    try:
+        res = run(f.node.body, {})
+    except Undecided as e:
+        raise AnalysisError(f"r7: {f.site()}: which screen is returned when both are published could not be evaluated ({e})")
+    ctx.need(res is not None, f"r7: {f.site()}: no return reached when both screens are published")
+    ctx.check("R7", f"{f.site()}::advanced-screen-preferred", res == ("file", "advanced_screen.h5"),
+              "with both screens published (iter_0/plate_0) the advanced screen - the step's output - is returned",
+              f"with both training.screen.h5 and advanced_screen.h5 published (iter_0/plate_0) the function returns {res}: the step after the first one starts "
+              f"from the simulation's input instead of its predecessor's output and selects the same plate again")
+
+
+RULE_FUNCS = [r1, r2, r3, r4, r5, r6, r7]
 
 
 def run(ctx):
@@ -438,6 +540,7 @@ def _rep(a, b):
 
 
 WITNESSES = [
+    ("training screen preferred over the advanced one", ORCH_MOD, _rep("    if len(advanced_screen_glob) > 0:\n        return advanced_screen_glob[0]\n    else:\n        return training_screen_glob[0]", "    if len(training_screen_glob) > 0:\n        return training_screen_glob[0]\n    else:\n        return advanced_screen_glob[0]"), ["R7"]),
     ("iteration dirs in string order", ORCH_MOD, _rep("    iter_dirs = sorted(iter_dirs, key=dir_sort_key)\n", "    iter_dirs = sorted(iter_dirs)\n"), ["R6"]),
     ("plate index reset per iteration dir", ORCH_MOD, _rep("        plate_dirs = sorted(plate_dirs, key=dir_sort_key)\n\n        for idx, plate_dir", "        plate_dirs = sorted(plate_dirs, key=dir_sort_key)\n\n        current_plate_idx = 0\n\n        for idx, plate_dir"), ["R2"]),
     ("rmtree of the iteration dir", ORCH_MOD, _rep("    shutil.rmtree(job_output_dir, ignore_errors=True)", "    shutil.rmtree(os.path.dirname(job_output_dir), ignore_errors=True)"), ["R1"]),
